@@ -58,50 +58,40 @@ Qed.
 (* ---------------------------------------------------------------- *)
 (* C18_load_filters: whatever the document, every loaded lease passed the filters *)
 
-Definition loaded_ok (n1 : option subnet) (rs : list lease_rec) (l : lease) : Prop :=
+Definition loaded_ok (s1 : subnet) (rs : list lease_rec) (l : lease) : Prop :=
   allocated l = true
-  /\ (exists s1, n1 = Some s1 /\ contains (s_lan (n_cfg s1)) (r_ip (l_rec l)) = true)
+  /\ contains (s_lan (n_cfg s1)) (r_ip (l_rec l)) = true
   /\ r_cid (l_rec l) <> []
   /\ In (l_rec l) rs.
 
-Lemma load_loop_filters cap n1 n2 all rs : forall tt t,
+Lemma load_loop_filters cap s1 s2 all rs : forall tt,
   (forall r, In r rs -> In r all) ->
-  (forall l, In l tt -> loaded_ok n1 all l) ->
-  load_loop cap n1 n2 rs tt = Ok t ->
-  forall l, In l t -> loaded_ok n1 all l.
+  (forall l, In l tt -> loaded_ok s1 all l) ->
+  forall l, In l (load_loop cap s1 s2 rs tt) -> loaded_ok s1 all l.
 Proof.
-  induction rs as [|v rest IH]; intros tt t Hsub Htt H.
-  - simpl in H. inversion H; subst. exact Htt.
-  - assert (Hrest : forall r, In r rest -> In r all) by (intros r Hr; apply Hsub; right; exact Hr).
-    assert (Hv : In v all) by (apply Hsub; left; reflexivity).
-    simpl in H.
-    destruct (r_state v =? 2)%Z eqn:Est; simpl in H; [|eapply IH; eauto].
-    destruct (avalid (r_ip v)) eqn:Eval; simpl in H; [|eapply IH; eauto].
-    destruct n1 as [s1|]; [|discriminate].
-    destruct (contains (s_lan (n_cfg s1)) (r_ip v)) eqn:Ec; simpl in H; [|eapply IH; eauto].
-    destruct (r_cid v) as [|c0 cs] eqn:Ecid; [eapply IH; eauto|].
-    assert (Hgood : forall sub, loaded_ok (Some s1) all {| l_rec := v; l_sub := sub |}).
-    { intros sub. unfold loaded_ok, allocated; simpl. repeat split; auto.
-      - exists s1; auto.
-      - rewrite Ecid. discriminate. }
-    destruct (cap (r_mac v)).
-    + destruct n2 as [s2|]; [|discriminate].
-      eapply IH; [exact Hrest| |exact H].
-      intros l Hl. apply tinsert_In in Hl. destruct Hl as [->|Hl]; auto.
-    + eapply IH; [exact Hrest| |exact H].
-      intros l Hl. apply tinsert_In in Hl. destruct Hl as [->|Hl]; auto.
+  induction rs as [|v rest IH]; intros tt Hsub Htt; [exact Htt|].
+  assert (Hrest : forall r, In r rest -> In r all) by (intros r Hr; apply Hsub; right; exact Hr).
+  assert (Hv : In v all) by (apply Hsub; left; reflexivity).
+  simpl.
+  destruct (r_state v =? 2)%Z eqn:Est; simpl; [|apply IH; auto].
+  destruct (avalid (r_ip v)) eqn:Eval; simpl; [|apply IH; auto].
+  destruct (contains (s_lan (n_cfg s1)) (r_ip v)) eqn:Ec; simpl; [|apply IH; auto].
+  destruct (r_cid v) as [|c0 cs] eqn:Ecid; [apply IH; auto|].
+  apply IH; auto.
+  intros l Hl. apply tinsert_In in Hl. destruct Hl as [->|Hl]; auto.
+  unfold loaded_ok, allocated; simpl. repeat split; auto. rewrite Ecid. discriminate.
 Qed.
 
-Lemma load_filters cap d n1 n2 t :
-  load cap d = Ok (n1, n2, t) ->
-  forall l, In l t -> loaded_ok n1 (d_leases d) l.
+Lemma load_filters cap d s1 s2 t :
+  load cap d = Ok (s1, s2, t) ->
+  forall l, In l t -> loaded_ok s1 (d_leases d) l.
 Proof.
   unfold load. intros H.
   destruct (opt_subnet (d_net1 d)) as [o1| | |]; simpl in H; try discriminate.
   destruct (opt_subnet (d_net2 d)) as [o2| | |]; simpl in H; try discriminate.
-  destruct (load_loop cap o1 o2 (d_leases d) []) as [t'| | |] eqn:E; simpl in H; try discriminate.
+  destruct o1 as [a|]; [|discriminate]. destruct o2 as [b|]; [|discriminate].
   inversion H; subst.
-  eapply load_loop_filters; [|  |exact E]; auto.
+  apply load_loop_filters; auto.
   intros l [].
 Qed.
 
@@ -117,7 +107,7 @@ Definition ex_rec : lease_rec :=
 Definition ex_doc : doc := {| d_net1 := Some ex_net1; d_net2 := Some ex_net2; d_leases := [ex_rec] |}.
 
 Example load_filters_nonvacuous :
-  exists n1 n2 t, load (fun _ => false) ex_doc = Ok (n1, n2, t) /\ t <> [].
+  exists s1 s2 t, load (fun _ => false) ex_doc = Ok (s1, s2, t) /\ t <> [].
 Proof. vm_compute. do 3 eexists. split; [reflexivity|discriminate]. Qed.
 
 (* ---------------------------------------------------------------- *)
@@ -136,7 +126,7 @@ Definition restored (cap : sess) (s2 : subnet) (r : lease_rec) : lease :=
 Lemma load_loop_all_ok cap s1 s2 rs : forall tt,
   (forall r, In r rs -> (r_state r =? 2)%Z = true /\ rec_ok s1 r = true) ->
   NoDup (map l_cid tt ++ map r_cid rs) ->
-  load_loop cap (Some s1) (Some s2) rs tt = Ok (tt ++ map (restored cap s2) rs).
+  load_loop cap s1 s2 rs tt = tt ++ map (restored cap s2) rs.
 Proof.
   induction rs as [|v rest IH]; intros tt Hok Hnd; simpl.
   - rewrite app_nil_r. reflexivity.
@@ -151,14 +141,12 @@ Proof.
     { rewrite map_app, <- app_assoc. simpl. exact Hnd. }
     assert (Hrest : forall r, In r rest -> (r_state r =? 2)%Z = true /\ rec_ok s1 r = true)
       by (intros r Hr; apply Hok; right; exact Hr).
-    unfold restored, sub_of in *. simpl in *.
-    destruct (cap (r_mac v)).
-    + rewrite (tinsert_fresh _ tt Hfresh). rewrite (IH _ Hrest Hnd'). rewrite <- app_assoc. reflexivity.
-    + rewrite (tinsert_fresh _ tt Hfresh). rewrite (IH _ Hrest Hnd'). rewrite <- app_assoc. reflexivity.
+    fold (sub_of cap s2 v). fold (restored cap s2 v).
+    rewrite (tinsert_fresh _ tt Hfresh). rewrite (IH _ Hrest Hnd'). rewrite <- app_assoc. reflexivity.
 Qed.
 
 Lemma load_loop_roundtrip cap s1 s2 rs :
   (forall r, In r rs -> (r_state r =? 2)%Z = true /\ rec_ok s1 r = true) ->
   NoDup (map r_cid rs) ->
-  load_loop cap (Some s1) (Some s2) rs [] = Ok (map (restored cap s2) rs).
+  load_loop cap s1 s2 rs [] = map (restored cap s2) rs.
 Proof. intros H1 H2. exact (load_loop_all_ok cap s1 s2 rs [] H1 H2). Qed.
